@@ -4,6 +4,8 @@ import (
 	"verif/drv"
 
 	_ "verif/props/c11"
+	_ "verif/props/c13"
+	_ "verif/props/c14"
 	_ "verif/props/c16"
 	_ "verif/props/c17"
 	_ "verif/props/c20"
